@@ -86,6 +86,10 @@ pub fn mark_job_as_running(sh: &mut shell::Shell, gid: i32, bg: bool) {
 
 #[allow(unreachable_patterns)]
 pub fn waitpidx(wpid: i32, block: bool) -> types::WaitStatus {
+    #[cfg(cicada_verif)]
+    if let Some(ws) = crate::verif_hooks::next_wait_event(wpid, block) {
+        return ws;
+    }
     let options = if block {
         Some(WF::WUNTRACED | WF::WCONTINUED)
     } else {
